@@ -168,7 +168,11 @@ func (s *Sym) Key() string {
 		}
 		k = "tuple(" + strings.Join(ks, ",") + ")"
 	default:
-		k = fmt.Sprintf("opaque(%s@%d#%d)", s.V.Name(), s.V.Pos(), s.iter)
+		if s.V == nil {
+			k = fmt.Sprintf("opaque(%s#%d)", s.Str, s.iter)
+		} else {
+			k = fmt.Sprintf("opaque(%s@%d#%d)", s.V.Name(), s.V.Pos(), s.iter)
+		}
 	}
 	s.key = k
 	return k
@@ -196,6 +200,7 @@ type Event struct {
 	Store  bool // a store: Args[0]=address, Args[1]=value
 	StoreI *ssa.Store
 	Deref  []*Sym // for pointer arguments to tracked locals: the value pointed to at the time of the call
+	Inlined bool  // the callee was interpreted in place (the event records the call and its arguments only)
 }
 
 type pstate struct {
@@ -531,7 +536,7 @@ func zeroSym(t types.Type) *Sym {
 		}
 	case *types.Pointer, *types.Interface, *types.Slice, *types.Map, *types.Chan, *types.Signature:
 		return &Sym{K: sConst, C: nil, T: t}
-	case *types.Struct:
+	case *types.Struct, *types.Array:
 		return &Sym{K: sStruct, A: nil, F: map[string]*Sym{}, T: t}
 	}
 	return &Sym{K: sOpaque, T: t, Str: "zero"}
@@ -1098,10 +1103,17 @@ func (ps *PathSim) walk(fn *ssa.Function, b *ssa.BasicBlock, start int, pred *ss
 				callee := x.Common().StaticCallee()
 				if callee != nil && ps.Inline != nil && depth < ps.MaxDepth && len(callee.Blocks) > 0 && callee != fn && ps.Inline(callee) {
 					com := x.Common()
+					iev := Event{Instr: x, In: fn, Callee: callee, Inlined: true}
 					for k, p := range callee.Params {
 						if k < len(com.Args) {
 							st.env[p] = ps.sym(st, com.Args[k])
+							iev.Args = append(iev.Args, st.env[p])
 						}
+					}
+					iev.Deref = make([]*Sym, len(iev.Args))
+					st.events = append(st.events, iev)
+					if ps.OnEvent != nil {
+						ps.OnEvent(st, &st.events[len(st.events)-1])
 					}
 					for _, cb := range callee.Blocks {
 						delete(st.visits, cb)
